@@ -87,6 +87,7 @@ public:
      *
      */
     void schedule(ident id, promise p, std::chrono::system_clock::time_point tp) {
+          COCLS_VERIF_POINT(sch_schedule_entry);
           std::lock_guard _(_mx);
           bool ntf = _scheduled.empty() || _scheduled[0]._tp > tp;
           _scheduled.push_back({tp, std::move(p), id});
@@ -198,6 +199,7 @@ public:
      */
     suspend_point<bool> cancel(ident id, std::exception_ptr e) {
         auto p = remove(id);
+        COCLS_VERIF_POINT(sch_cancel_removed);
         if (p) {
             return {p(e), true};
         } else {
@@ -331,6 +333,7 @@ public:
 
     ~scheduler() {
         if (_glob_state.has_value()) {
+            COCLS_VERIF_POINT(sch_dtor_stop);
             _glob_state->_stp.request_stop();
             _glob_state->_fut.wait();
         }
@@ -372,6 +375,7 @@ protected:
     template<bool have_pool>
     async<void> worker_coro(std::stop_token state) {
         std::stop_callback stop_notify(state, [&]{
+            COCLS_VERIF_POINT(sch_stop_cb);
             _cond.notify_all();
         });
         std::unique_lock lk(_mx);
@@ -382,6 +386,7 @@ protected:
         }
         while (!state.stop_requested()) {
             lk.unlock();
+            COCLS_VERIF_POINT(sch_worker_loop);
             if constexpr(have_pool) {
                 co_await *pool;
             } else {
@@ -390,6 +395,7 @@ protected:
             lk.lock();
             if (state.stop_requested()) break;
             now = std::chrono::system_clock::now();
+            COCLS_VERIF_NOW_OVERRIDE(now);
             expired p = get_expired_lk(now);
             std::visit([&](auto &x){
                using T = std::decay_t<decltype(x)>;
@@ -402,10 +408,18 @@ protected:
                } else {
                    if constexpr(have_pool) {
                        if (!pool->any_enqueued() && coro_queue::can_block()) {
+                           COCLS_VERIF_POINT(sch_worker_pre_wait);
+#ifdef COCLS_VERIF
+                           if (::cocls::verif::wait_until_handler) ::cocls::verif::wait_until_handler(_cond, lk, x); else
+#endif
                            _cond.wait_until(lk, x);
                        }
                    } else {
                        if (coro_queue::can_block()) {
+                           COCLS_VERIF_POINT(sch_worker_pre_wait);
+#ifdef COCLS_VERIF
+                           if (::cocls::verif::wait_until_handler) ::cocls::verif::wait_until_handler(_cond, lk, x); else
+#endif
                            _cond.wait_until(lk, x);
                        }
                    }
